@@ -794,6 +794,8 @@ func Run(o *drv.Out) {
 		(&runner{o: o, w: w, sc: sc, mode: sc, kind: fsm.MessageStakeName, seen: seen, fails: fails, sigSuffix: ":long-signbytes"}).runLong()
 	}
 	runCacheKeys(o, w, fails)
+	// a 300-member multisig: thresholds above 255 (the whole threshold is part of the account address)
+	(&runner{o: o, w: w, sc: "multi", mode: "multi", kind: fsm.MessageSendName, seen: seen, fails: fails}).runWide()
 	// multisig keys whose signer bitmap has padding bits (indices >= n) raised
 	(&runner{o: o, w: w, sc: "multi", mode: "multi", kind: fsm.MessageSendName, seen: seen, fails: fails}).runPaddingBits()
 	// the same table with every governance proposal rejected by the local configuration
